@@ -417,6 +417,7 @@ protocols_sign(signature_t *sig,
     int exp_diadic_val_full_resp;
     int pow_dim2_deg_resp;
     int backtracking;
+    int ret = 1;
 
     ec_curve_init(&E_aux);
     ec_curve_init(&E_com);
@@ -564,6 +565,16 @@ verif_commit_done:;
     // now we compute the ideal_aux
     // computing the norm
     pow_dim2_deg_resp = SQIsign2D_response_length - exp_diadic_val_full_resp;
+    // the dimension 2 chain of length pow_dim2_deg_resp uses the strategy
+    // strategies[TORSION_PLUS_EVEN_POWER - pow_dim2_deg_resp]: when the response degree is divisible by
+    // a too large power of two (or the backtracking is too long) there is no such strategy and
+    // the verifier would not accept the lengths either, so signing fails explicitly
+    if (pow_dim2_deg_resp < 1 ||
+        TORSION_PLUS_EVEN_POWER - pow_dim2_deg_resp >= (int)(sizeof(strategies) / sizeof(strategies[0])) ||
+        backtracking >= SQIsign2D_backtracking_bound) {
+        ret = 0;
+        goto cleanup;
+    }
     ibz_pow(&remain, &ibz_const_two, pow_dim2_deg_resp);
     ibz_sub(&tmp, &remain, &degree_odd_resp);
 
@@ -927,6 +938,7 @@ verif_commit_done:;
     ec_point_init(&sig->E_aux.A24);
     sig->E_aux.is_A24_computed_and_normalized = 0;
 
+cleanup:
     ibz_vec_2_finalize(&vec);
     ibz_vec_2_finalize(&vec_chall);
     ibz_vec_2_finalize(&vec_resp_two);
@@ -954,7 +966,7 @@ verif_commit_done:;
     ibz_finalize(&tmp);
     ibz_finalize(&lattice_content);
     ibz_finalize(&remain);
-    return 1;
+    return ret;
 }
 
 // Range validation of the public key and signature values handed to protocols_verif.
